@@ -12,6 +12,7 @@ mod fam_scope;
 mod fam_shape;
 mod fam_graph;
 mod fam_accept;
+mod fam_nopanic;
 mod sema;
 mod fam_tree;
 mod fam_use;
@@ -41,6 +42,7 @@ fn main() {
         "shape" => fam_shape::run(rest),
         "graph" => fam_graph::run(rest),
         "accept" => fam_accept::run(rest),
+        "nopanic" => fam_nopanic::run(rest),
         f => {
             eprintln!("unknown family {f}");
             std::process::exit(2);
